@@ -68,6 +68,9 @@ CHECKS.update({
     "C11": dict(level="model_checking", design_ref="DESIGN.md 4/C11, 10", note=_C_NOTE + " Two objects, every placement, plans failing the 1st or 2nd call on a replica; a second battery uses two real local stores as replicas.",
                 technique="TLA+ design spec Mirrored.tla (round-robin first replica, repair through the replicator, parallel Put / FindMissing, error naming) model-checked with TLC against MirrorDefs.tla; all two-operation behaviours from every placement enumerated, longer ones simulated, mutant counterexamples added; all replayed on the real mirroredBlobAccess over model back ends and over two real local stores; every observation validated by TLC against MirrorContractTrace.tla",
                 text="Monitor: a successful upload is in both replicas; a read returns the object whenever a replica holds it and no replica failed, and then the replica consulted first holds it; FindMissing reports missing exactly the objects both lack and has copied the one-sided ones; any replica failure other than NOT_FOUND yields an error that names the replica and is not NOT_FOUND; nothing is ever removed from a replica."),
+    "C13": dict(level="model_checking", design_ref="DESIGN.md 4/C13, 10", note=_C_NOTE + " Exhaustive: 81k cases (<=1 output file, stdout, stderr, <=1 output directory with root and <=1 child, 3 Tree states, <=1 object missing, batch sizes 1/2/100, FindMissing failure, size limit), 6000 of them executed per quick run and all in the thorough tier, plus 4000 / 60000 random wide cases (<=3 directories, <=3 children, malformed digests at every position, truncated / failing / garbage Trees, five digest functions).",
+                technique="TLA+ spec CompletenessDefs.tla / Completeness.tla: the state space is the list of (ActionResult shape, CAS contents, batch size, fault, size limit) cases; TLC checks the statement-by-statement transcription of checkCompleteness and its FindMissing queue against the contract for every case (five design mutants killed) and emits the cases; each case is built as real REv2 protobuf messages and executed on the real completenessCheckingBlobAccess over a model AC and a recording model CAS; TLC validates every observation against CompletenessContractTrace.tla (contract layer decides VIOLATION, design layer reports DRIFT)",
+                text="Monitor: the ActionResult is returned only if the AC entry is readable, no digest anywhere in it or in its Trees is malformed, every Tree is readable, the Trees fit the configured total size, and every referenced object - output files, stdout, stderr, Tree objects, root directories, files inside Trees and, when a root directory digest is given, directories inside Trees - exists and was reported present by a successful FindMissing call made during this Get; when the only thing wrong is a missing object the error is NOT_FOUND. The set of references is computed by the specification from the case, independently of the code."),
     "C17": dict(level="model_checking", design_ref="DESIGN.md 4/C17, 10", note=_C_NOTE + " Read-through: 2 objects, all placements, <=5 operations; replicator decorators: exhaustive protocol model for 3-4 callers, real code under 400 (quick) / 20000 (thorough) seeded cooperative schedules with failures and cancellations plus free-running runs; existence cache: sizes 1-3, durations 1-2, LRU/FIFO compared to the design, random replacement against the contract only.",
                 technique="TLA+ design specs ReadThrough.tla (caching / fallback with single-shot selector), Replicators.tla (in-flight map, leader / waiter retry, concurrency limit; safety + termination under fairness) and ExistenceCache.tla (insertion times, LRU/FIFO order, virtual clock, back end changing behind the cache) model-checked with TLC, design mutants killed; TLC-generated scripts replayed on the real readcaching / readfallback / existenceCaching composites, seeded schedules of concurrent callers on the real deduplicating / concurrency-limiting / queued replicators over a recording gated base replicator; every observation validated by TLC against ReadThroughContractTrace.tla",
                 text="Monitor: (a) without back-end failures a read returns the object iff fast/primary or slow/secondary holds it, uploads reach only the slow resp. primary back end, reads never write to the slow/secondary one, a successful read-through with a copying replicator leaves the object in the fast/primary back end, fallback FindMissing reports exactly the objects missing from both; with failures any answer given must still be right. (b) never two concurrent copies of one object behind the deduplicating decorator, never more concurrent copies than the limit, success only if every object was confirmed in or copied to the sink after the caller asked, no panic, nobody left waiting. (c) an object is answered from the existence cache only if the back end reported it present at most the configured duration ago; whatever the back end is asked is answered with the back end's own answer."),
